@@ -1,0 +1,191 @@
+//! Verification hooks (cargo feature `verif-hooks`, off by default).
+//!
+//! Seams for a deterministic simulator: an instruction-boundary callback,
+//! a collection mode (normal / force once / suppress), read-only access to
+//! the machine state, and a canonical, seedable order for the symbol sets
+//! that the compiler obtains from randomised hash sets.
+use crate::cell::Cell;
+use crate::vm::Vm;
+use crate::vm::environment::GlobalEnvironment;
+use crate::vm::heap::Heap;
+use crate::vm::opcode::OpCode;
+use crate::vm::stack::Stack;
+use crate::vm::vcell::VCell;
+use std::cell::Cell as StdCell;
+use std::collections::HashSet;
+use std::fmt::{Debug, Formatter};
+
+#[derive(Debug, Clone, Copy, Eq, PartialEq)]
+pub enum GcMode {
+    /// Shipped behaviour: collect only above the utilisation threshold.
+    Normal,
+    /// The next call of `run_gc` skips the utilisation test once.
+    ForceOnce,
+    /// `run_gc` returns immediately.
+    Suppress,
+}
+
+pub type Scheduler = Box<dyn FnMut(&mut Vm)>;
+
+pub struct VerifState {
+    /// Instructions executed since the VM was created
+    pub instructions: u64,
+    /// Highest stack pointer seen at an instruction boundary since the last reset
+    pub max_sp: usize,
+    /// Completed collections (mark + sweep)
+    pub collections: u64,
+    /// Cells freed by the last collection
+    pub last_freed: usize,
+    /// Times the heap grew after a collection
+    pub grows_after_gc: u64,
+    pub gc_mode: GcMode,
+    pub scheduler: Option<Scheduler>,
+}
+
+impl VerifState {
+    pub fn new() -> VerifState {
+        VerifState {
+            instructions: 0,
+            max_sp: 0,
+            collections: 0,
+            last_freed: 0,
+            grows_after_gc: 0,
+            gc_mode: GcMode::Normal,
+            scheduler: None,
+        }
+    }
+}
+
+impl Default for VerifState {
+    fn default() -> Self {
+        Self::new()
+    }
+}
+
+impl Debug for VerifState {
+    fn fmt(&self, f: &mut Formatter<'_>) -> std::fmt::Result {
+        write!(f, "VerifState(instructions={})", self.instructions)
+    }
+}
+
+impl Vm {
+    /// Called by the run loop before every instruction.
+    #[inline]
+    pub(crate) fn verif_boundary(&mut self) {
+        self.verif.instructions += 1;
+        let sp = self.stack.get_sp();
+        if sp > self.verif.max_sp {
+            self.verif.max_sp = sp;
+        }
+        if let Some(mut scheduler) = self.verif.scheduler.take() {
+            scheduler(self);
+            if self.verif.scheduler.is_none() {
+                self.verif.scheduler = Some(scheduler);
+            }
+        }
+    }
+
+    pub fn verif_set_scheduler(&mut self, scheduler: Option<Scheduler>) {
+        self.verif.scheduler = scheduler;
+    }
+
+    pub fn verif_state(&self) -> &VerifState {
+        &self.verif
+    }
+
+    pub fn verif_state_mut(&mut self) -> &mut VerifState {
+        &mut self.verif
+    }
+
+    /// Run a collection through the VM's own `run_gc`, skipping its
+    /// utilisation test once.
+    pub fn verif_collect(&mut self) {
+        let saved = self.verif.gc_mode;
+        self.verif.gc_mode = GcMode::ForceOnce;
+        self.run_gc();
+        self.verif.gc_mode = saved;
+    }
+
+    pub fn verif_heap(&self) -> &Heap {
+        &self.heap
+    }
+
+    pub fn verif_stack(&self) -> &Stack {
+        &self.stack
+    }
+
+    pub fn verif_globenv(&self) -> &GlobalEnvironment {
+        &self.globenv
+    }
+
+    pub fn verif_acc(&self) -> &VCell {
+        &self.acc
+    }
+
+    pub fn verif_ip(&self) -> (usize, usize) {
+        self.ip
+    }
+
+    pub fn verif_ep(&self) -> usize {
+        self.ep
+    }
+
+    pub fn verif_bp(&self) -> usize {
+        self.bp
+    }
+
+    /// The opcode the run loop will execute next, if %ip points at one.
+    pub fn verif_next_opcode(&self) -> Option<OpCode> {
+        match self.heap.verif_cells().get(self.ip.0) {
+            Some(VCell::Lambda(lambda)) => match lambda.get(self.ip.1) {
+                Some(VCell::OpCode(op)) => Some(op.clone()),
+                _ => None,
+            },
+            _ => None,
+        }
+    }
+}
+
+thread_local! {
+    static SLOT_ORDER_SEED: StdCell<u64> = const { StdCell::new(0) };
+}
+
+/// Set the seed that permutes the canonical (sorted by name) order of the
+/// compiler's free-symbol and internal-definition sets on this thread.
+/// Seed 0 keeps the canonical order.
+pub fn set_slot_order_seed(seed: u64) {
+    SLOT_ORDER_SEED.with(|it| it.set(seed));
+}
+
+pub fn slot_order_seed() -> u64 {
+    SLOT_ORDER_SEED.with(|it| it.get())
+}
+
+fn splitmix(state: &mut u64) -> u64 {
+    *state = state.wrapping_add(0x9E37_79B9_7F4A_7C15);
+    let mut z = *state;
+    z = (z ^ (z >> 30)).wrapping_mul(0xBF58_476D_1CE4_E5B9);
+    z = (z ^ (z >> 27)).wrapping_mul(0x94D0_49BB_1331_11EB);
+    z ^ (z >> 31)
+}
+
+/// Turn a hash set of symbols into a vector whose order is a function of
+/// the symbol names and the thread's slot-order seed only.
+pub fn order_symbols<'a>(set: HashSet<&'a Cell>) -> Vec<&'a Cell> {
+    let mut v: Vec<&'a Cell> = set.into_iter().collect();
+    v.sort_by(|a, b| a.as_symbol().unwrap_or("").cmp(b.as_symbol().unwrap_or("")));
+    let seed = slot_order_seed();
+    if seed != 0 && v.len() > 1 {
+        let mut state = seed;
+        for sym in &v {
+            for b in sym.as_symbol().unwrap_or("").bytes() {
+                state = (state ^ b as u64).wrapping_mul(0x0000_0100_0000_01B3);
+            }
+        }
+        for i in (1..v.len()).rev() {
+            let j = (splitmix(&mut state) % (i as u64 + 1)) as usize;
+            v.swap(i, j);
+        }
+    }
+    v
+}
